@@ -594,6 +594,11 @@ func markBase(r *rand.Rand, B int, o Opts) (markCov, baseCov coverage.Table, mar
 	marks = make([]markarray.Record, len(markCov))
 	for i := range marks {
 		marks[i] = markarray.Record{Class: uint16(r.IntN(max(k, 1))), Table: anchor.Table{X: int16val(r), Y: int16val(r)}}
+		if r.IntN(6) == 0 {
+			// a mark attached at its origin: the anchor of a mark record is
+			// mandatory, (0,0) is a position there and not "absent"
+			marks[i].Table = anchor.Table{}
+		}
 	}
 	if o.DSL {
 		// all classes in use
